@@ -221,24 +221,24 @@ Qed.
 Lemma skip_meta2_roundtrip (m : meta) mb rest :
   enc_meta2 m = Some mb -> skip_meta2 (mb ++ rest) = Ok rest.
 Proof.
-  unfold enc_meta2. destruct (255 <? length m)%nat; [discriminate|].
+  unfold enc_meta2. destruct (max_kvs <? length m)%nat; [discriminate|].
   destruct (forallb _ m); [|discriminate]. intros H; inversion H; subst.
   cbn [app skip_meta2]. rewrite Nat2N.id, skip_kvs2_roundtrip. reflexivity.
 Qed.
 
 Lemma enc_kv2_len_bound (m : meta) :
-  forallb (fun kv => (length (fst kv) <=? 255)%nat && (length (snd kv) <=? 255)%nat) m = true ->
+  forallb (fun kv => (length (fst kv) <=? max_key)%nat && (length (snd kv) <=? max_value)%nat) m = true ->
   (length (flat_map enc_kv2 m) <= 512 * length m)%nat.
 Proof.
   induction m as [|[k v] m IH]; cbn [forallb flat_map length]; intros H; [lia|].
   apply andb_prop in H. destruct H as [H1 H2]. apply andb_prop in H1. destruct H1 as [Hk Hv].
-  cbn [fst snd] in *. apply Nat.leb_le in Hk, Hv. specialize (IH H2).
+  cbn [fst snd] in *. apply Nat.leb_le in Hk, Hv. unfold max_key, max_value in *. specialize (IH H2).
   rewrite app_length. unfold enc_kv2 at 1. cbn [fst snd length]. rewrite app_length. cbn [length]. lia.
 Qed.
 
 Lemma enc_meta2_small (m : meta) mb : enc_meta2 m = Some mb -> N.of_nat (length mb) <= 130561.
 Proof.
-  unfold enc_meta2. destruct (255 <? length m)%nat eqn:E; [discriminate|]. apply Nat.ltb_ge in E.
+  unfold enc_meta2. destruct (max_kvs <? length m)%nat eqn:E; [discriminate|]. apply Nat.ltb_ge in E. unfold max_kvs in E.
   destruct (forallb _ m) eqn:F; [|discriminate]. intros H; inversion H; subst.
   pose proof (enc_kv2_len_bound m F). cbn [length]. lia.
 Qed.
